@@ -1060,3 +1060,13 @@ Example guard_nonvacuous :
   /\ model_fields (parse_doc default_max_depth spec_ok) sPet
      = Some [(sident, true, TPrim PInteger); (skind, false, TRef sKind); (stag, true, TRef sTag); (snames, false, TList (TPrim PString))].
 Proof. vm_compute. repeat split. Qed.
+
+(* contrapositive: on the core fragment a schema can only lose its fidelity when one of the logged branches fired *)
+Lemma loss_only_by_events : forall md S,
+  core_spec S = true ->
+  let s := parse_doc md S in
+  oof s = false -> all_present S s = true ->
+  forall n, In n (map fst S) -> ~ faithful S s n -> events s <> [].
+Proof.
+  intros md S HS s Ho Hp n Hn Hnf He. apply Hnf. apply (C02_core md S HS He Ho Hp n Hn).
+Qed.
